@@ -290,3 +290,14 @@ func UnpackAnyOpaque(any interface{}, iface interface{}) bool {
 func UnmarshalInterfaceOpaque(bz []byte, ptr interface{}) bool {
 	panic("rt.UnmarshalInterfaceOpaque: engine only")
 }
+
+// SetMapOrder selects, inside the engine, which of two map iteration orders (ascending /
+// descending keys) the following code sees. Natively Go's own randomised order applies, so
+// determinism harnesses repeat the computation several times instead (see Repeats).
+func SetMapOrder(reverse bool) {}
+
+// Repeats is how often a determinism harness re-runs a computation: 2 in the engine (the two map
+// orders), 24 natively (random orders).
+func Repeats() int {
+	return 24
+}
